@@ -43,10 +43,16 @@ def corr(ctx):
     for K in (1, 2, 3):
         for vals in itertools.product((0.0, 1.0, 2.0), repeat=K * K):
             mats.append(np.array(vals).reshape(K, K))
+    for K in (1, 2, 3):   # all-negative grids: totals below -K (euclidean-like scores)
+        grid = list(itertools.product((-3.0, -2.0, -1.0), repeat=K * K))
+        for vals in (grid if K < 3 or ctx.tier == 'thorough' else [grid[i] for i in rng.choice(len(grid), 1500, replace=False)]):
+            mats.append(np.array(vals).reshape(K, K))
     for _ in range(ctx.n(300, 6000)):
         K = int(rng.integers(1, 6))
         m = rng.normal(size=(K, K)) if rng.random() < 0.6 else rng.integers(-3, 4, size=(K, K)).astype(float)
+        m = m * float(rng.choice([1, 1, 10, 1e-3])) + float(rng.choice([0, 0, -1, -10, 10, -1e3]))
         mats.append(m)
+        ctx.count('corr-optimal-all-negative' if np.all(m < 0) else 'corr-optimal-mixed-sign')
     out = run_driver([f'assign optimal {m.shape[0]} {fbits(m)}' for m in mats])
     for m, o in zip(mats, out):
         want = pa._mapping_from_score_matrix(m, 'optimal')
@@ -102,6 +108,11 @@ def optimal_attains_maximum(score):
         return Fail('below-greedy', f'optimal total {tot} < greedy total {s[np.arange(K), g].sum()}')
 
 
+# smallest relative row separation a double-precision score can still resolve reliably:
+# euclidean sees the difference itself, cos/multiply see it squared (1 - d^2/2)
+SEP = {'euclidean': 1e-10, 'cos': 1e-6, 'multiply': 1e-6}
+
+
 def _row_separation(ref, metric):
     """min distance between (normalised) class rows of any bin"""
     K = ref.shape[0]
@@ -119,8 +130,8 @@ def _row_separation(ref, metric):
 @oracle
 def oracle_undoes_permutation(reference, perm, metric, algorithm):
     K, F = perm.shape
-    if K > 1 and _row_separation(reference, metric) < 1e-6:
-        return Skip('rows closer than 1e-6 (outside "pairwise distinct" with margin)')
+    if K > 1 and _row_separation(reference, metric) < SEP[metric]:
+        return Skip('rows closer than the float resolution margin (outside "pairwise distinct" with margin)')
     if metric == 'cos' and np.any(np.linalg.norm(reference.reshape(K, F, -1), axis=-1) == 0):
         return Skip('zero row has no direction')
     mask = pa.apply_mapping(reference, perm)
@@ -139,8 +150,8 @@ def oracle_resolves_global_permutation(reference, perm1, metric, algorithm):
     """frequency and time flattened: (K, F, T) -> (K, F*T), one global permutation"""
     K, F, T = reference.shape
     flat_ref = reference.reshape(K, F * T)
-    if K > 1 and _row_separation(flat_ref[:, None, :], metric) < 1e-6:
-        return Skip('rows closer than 1e-6')
+    if K > 1 and _row_separation(flat_ref[:, None, :], metric) < SEP[metric]:
+        return Skip('rows closer than the float resolution margin')
     if metric == 'cos' and np.any(np.linalg.norm(flat_ref, axis=-1) == 0):
         return Skip('zero row has no direction')
     mask = flat_ref[perm1]
@@ -159,9 +170,17 @@ def search(ctx):
         for vals in itertools.product((0, 1, 2), repeat=K * K):
             ctx.run(optimal_attains_maximum, score=np.array(vals, dtype=np.float64).reshape(K, K))
     ctx.count('exhaustive-{0,1,2}-K<=3', 19767)
+    for K in (1, 2, 3):   # all-negative grid (every permutation total <= -K)
+        grid = list(itertools.product((-3, -2, -1), repeat=K * K))
+        sel = grid if K < 3 or ctx.tier == 'thorough' else [grid[i] for i in rng.choice(len(grid), 1500, replace=False)]
+        for vals in sel:
+            ctx.run(optimal_attains_maximum, score=np.array(vals, dtype=np.float64).reshape(K, K))
+        ctx.count(f'grid-{{-3,-2,-1}}-K{K}', len(sel))
     for _ in range(ctx.n(300, 6000)):
         K = int(rng.integers(1, 7))
         s = rng.normal(size=(K, K)) if rng.random() < 0.7 else rng.integers(-5, 6, size=(K, K)).astype(float)
+        s = s * float(rng.choice([1, 1, 10, 1e-3])) + float(rng.choice([0, 0, -1, -10, 10, -1e3]))
+        ctx.count('search-optimal-all-negative' if np.all(s < 0) else 'search-optimal-mixed-sign')
         ctx.run(optimal_attains_maximum, score=s)
     # exhaustive permutation fields K <= 3, F <= 3
     for K in (1, 2, 3):
@@ -182,8 +201,16 @@ def search(ctx):
         K = int(rng.integers(1, 7))
         F = gen.odd(rng, 1, 15)
         T = int(rng.integers(2, 12))
-        kind = rng.choice(['uniform', 'normalised', 'integer-distinct', 'sparse'])
-        if kind == 'uniform':
+        kind = rng.choice(['uniform', 'normalised', 'integer-distinct', 'sparse', 'near-duplicate-rows'])
+        near = None
+        if kind == 'near-duplicate-rows' and K >= 2:
+            # two classes that differ only slightly (but resolvably); the injected field exchanges exactly them
+            ref = rng.random((K, F, T)) + 0.1
+            delta = 10.0 ** rng.uniform(-5.5, -3)
+            a, b = rng.choice(K, 2, replace=False)
+            ref[b] = ref[a] * (1 + delta * rng.choice([-1.0, 1.0], size=(F, T)))
+            near = (int(a), int(b))
+        elif kind == 'uniform' or kind == 'near-duplicate-rows':
             ref = rng.random((K, F, T))
         elif kind == 'normalised':
             ref = rng.random((K, F, T)) + 1e-3
@@ -194,9 +221,17 @@ def search(ctx):
             ref = rng.random((K, F, T)) * (rng.random((K, F, T)) < 0.4)
         ctx.count('search-ref-' + str(kind))
         perm = gen.random_perm_field(rng, K, F)
+        if near is not None:
+            perm = np.repeat(np.arange(K)[:, None], F, 1)
+            swap = rng.random(F) < 0.7
+            perm[near[0], swap], perm[near[1], swap] = near[1], near[0]
         metric, algo = str(rng.choice(METRICS)), str(rng.choice(ALGOS))
         ok = ctx.run(oracle_undoes_permutation, reference=ref, perm=perm, metric=metric, algorithm=algo)
         if i == 0:
             ctx.sample({'oracle': 'oracle_undoes_permutation', 'K': K, 'F': F, 'T': T, 'metric': metric,
                         'algorithm': algo, 'perm': perm.tolist(), 'held': ok})
-        ctx.run(oracle_resolves_global_permutation, reference=ref, perm1=rng.permutation(K), metric=metric, algorithm=algo)
+        p1 = rng.permutation(K)
+        if near is not None:
+            p1 = np.arange(K)
+            p1[near[0]], p1[near[1]] = near[1], near[0]
+        ctx.run(oracle_resolves_global_permutation, reference=ref, perm1=p1, metric=metric, algorithm=algo)
